@@ -144,6 +144,9 @@ var textPool = []string{
 	`back\slash`, `looks\nlike escape`, `quote"inside`, `{"json":"looking","n":[1,2]}`, "é ü ß", "日本語テキスト",
 	"astral \U0001F600 \U0001D11E", "ctl \x01\x1f end", `trailing backslash\`, "\u2028 line sep", " ", "-", "null", "[]",
 	`\u0041 literal`, "<script>alert(1)</script>", "&amp;",
+	// texts that are not valid UTF-8 (Latin-1 from an old database, a text cut inside a character,
+	// a NUL): a []byte-typed text may hold them, and every codec and helper must cope
+	"latin1 caf\xe9", "cut \xe2\x82", "\xff\xfe", "nul \x00 byte",
 }
 
 // Text returns a fresh byte slice (never shared with the pool).
@@ -254,7 +257,7 @@ func (g *G) Item(depth int, allowNil, allowList bool) ap.Item {
 	}
 }
 
-// List generates a list whose members carry pairwise distinct ids.
+// List generates a list whose members that carry an id carry pairwise distinct ones.
 func (g *G) List(depth int, min int) ap.ItemCollection {
 	n := min + g.T.Draw(g.K.MaxList+1-min)
 	if n <= 0 {
@@ -294,7 +297,9 @@ func (g *G) List(depth int, min int) ap.ItemCollection {
 			g.listIRIs = append(g.listIRIs, iri)
 			it = iri
 		} else {
-			it = g.StructItem(g.pickKind(), depth+1, false)
+			// (with the IDless knob a quarter of the embedded members lack an id: tags, attachments,
+			// poll options are written that way by every peer)
+			it = g.StructItem(g.pickKind(), depth+1, g.K.IDless && g.T.Bool(1, 4))
 			if id := it.GetLink(); len(id) > 0 && g.T.Bool(1, 2) {
 				g.listIRIs = append(g.listIRIs, id)
 			}
